@@ -6,6 +6,4 @@ pub open spec fn handler_expr(h: Handler) -> Expr {
     match h { Handler::Map(e) => e, Handler::Then(e) => e, Handler::AndThen(e) => e }
 }
 
-pub proof fn lemma_process_toks(e: ProcessExpr, t: Seq<Tok>) { }
-pub proof fn lemma_err_toks(e: ErrExpr, t: Seq<Tok>) { }
-pub proof fn lemma_initial_toks(e: InitialExpr, t: Seq<Tok>) { }
+
